@@ -46,6 +46,12 @@ CHECKS = {
         text="(a) Non-STL byte_array (library rebuilt with -DASCON_NO_STL): a pool of up to 6 variables goes through seeded histories of construct/copy/assign(self)/index/data()/resize/reserve/push/pop/clear/compare/iterate/destroy; after every operation every variable must equal its std::vector mirror (this exposes aliasing through the shared reference-counted buffer), comparisons must agree with std::vector, an allocation failure injected at the k-th allocation inside an operation must surface as std::bad_alloc without disturbing the other variables, and no block may stay allocated. (b) Hex codec and C++ helpers: texts from a grammar with whitespace, illegal characters (inserted or replacing a digit so parity varies), odd counts, NUL and high bytes, with exact/short/zero/larger capacities and guard bytes, against a 20-line reference decoder; encode-decode identity. Part (b) is model-based input sampling and is labelled so.",
         note="Trusted: std::vector as the value-semantics reference; the reference decoder; replaceable global operator new as the allocation seam.",
         design="§3 W6, §4 C20"),
+    "C10": dict(
+        technique="deterministic simulation: masked word/state/key/AEAD operation histories with the random source replaced at link time by simulator-controlled tapes (zero, ones, constant, periodic, counter, random, adversarial), over share-count x backend configurations",
+        category="exploration",
+        text="The five TRNG-mixer functions are replaced by a tape reader so that every 32/64-bit value the masked code draws is chosen by the simulator (this reaches the x86-64 assembly word backend too). Seeded histories over pools of masked words, states and keys (load/load_partial/load_32/store/store_partial/zero/xor/replace/randomize/from_xN/pad/separator; xN_permute for every starting round with preserved or fresh randomness; copy_from/to_x1 and share-count conversions; key init/extract/randomize; the three masked AEADs incl. tampered inputs) are compared, through public observers only, with the unmasked computation by the library itself. Re-randomisation must preserve the value and (random tape, distinct non-zero words) change every share. Quick: 5 configurations; thorough: all 27 share combinations on asm, c64 and c32.",
+        note="Trusted: the library's unmasked permutation/AEAD as reference; tape reader; value semantics of load_partial/replace/pad as documented in ascon-masked-word.h.",
+        design="§3 W7, §4 C10"),
     "C07": dict(
         technique="deterministic simulation: seeded interleaved object histories (chunking, copy, re-init, free, dirty-memory reuse) checked against the library's own single-call form",
         category="exploration",
